@@ -1,4 +1,6 @@
+mod c01;
 mod ev;
+mod gen;
 mod jq;
 mod reval;
 mod rterm;
@@ -14,8 +16,8 @@ fn main() {
         Some("thorough") => Tier::Thorough,
         _ => Tier::Quick,
     };
-    let _ = tier;
     match cmd {
+        "c01" => c01::main(tier),
         "eval" => {
             // vmc eval '<program>' '<input as jq program>' [inputs as jq programs...]
             jq::quiet_panics();
